@@ -44,6 +44,9 @@ type c07Method struct {
 func runC07(w *World, r *Report) {
 	hrResponseHeadersCopied(w, r, "R4")
 	hrHeadersAliasing(w, r, "R4")
+	hrDeepCopyAlwaysCopies(w, r, "R4")
+	hrResponseActionAvailable(w, r, "R5")
+	hrSetResponseSwitchesBothTypes(w, r, "R5")
 	hrRebuiltEarlyResponse(w, r, "R4")
 	hrCollectedActionsOnlyGrow(w, r, "R5")
 	hrEnsureCopies(w, r, "R4")
